@@ -40,6 +40,14 @@ def main():
         i = pr["id"]
         c = CLAIMED.get(i) or (tuple(extra[i]) if i in extra else None)
         if c:
+            # append the clause list of the rules as they are implemented now (from the last evidence file)
+            ev = os.path.join(V, "evidence", i + ".json")
+            if os.path.exists(ev):
+                rules = json.load(open(ev))["coverage"].get("rules", {})
+                if rules:
+                    c = (c[0] + " Clauses decided on every run (rule id: clause): " +
+                         "; ".join("%s: %s" % (r, v["desc"]) for r, v in sorted(rules.items())) +
+                         ". See DESIGN.md sections 9-13 for origin, exceptions and limits.", c[1] + " and 9-13", c[2])
             checks.append({
                 "property_id": i,
                 "quick_cmd": "./check %s --tier quick" % i,
